@@ -986,8 +986,7 @@ func (p *queryPlan) projectAndGroupBy() error {
 			Msgs: []string{"Reducing the table using configuration " + cfg.String()},
 		}
 	})
-	p.tbl.Reduce(cfg, aaps)
-	return nil
+	return p.tbl.Reduce(cfg, aaps)
 }
 
 // orderBy takes the resulting table and sorts its contents according to the
